@@ -16,9 +16,15 @@ func newLimitedReader(r io.Reader, limit int64) *limitedReader {
 	return &limitedReader{r: r, limit: limit}
 }
 
+// exceeds reports whether n bytes are more than the limit allows.
+// A limit of 0 means that there is no limit (`DisableMaxBufferSize`).
+func (l *limitedReader) exceeds(n int64) bool {
+	return l.limit > 0 && n > l.limit
+}
+
 func (l *limitedReader) Read(p []byte) (n int, err error) {
 	n, err = l.r.Read(p)
-	if int64(n) > l.limit {
+	if l.exceeds(int64(n)) {
 		err = ErrLimitReached
 	}
 	return
